@@ -17,6 +17,8 @@ func init() {
 			"(" + goosePkg + ".errorReporter).printGo": goosePkg + ".verifStubPrintGo",
 		},
 		Harness:  hf,
+		InitPkgs:  []string{"go/types"},
+		InitAllow: []string{"go/types"},
 		Entries: []Entry{
 			{PkgPath: coqPkg, Func: "verifC05Comment", Opt: big},
 			{PkgPath: coqPkg, Func: "verifC05Logging", Opt: big},
